@@ -100,6 +100,7 @@ var c13GoValues = []string{"nil", "int", "negint", "bigint", "uint64max", "float
 
 func c13Run(c c13Case, o *hx.Obs) {
 	root := c.Module.Root()
+	schemaClasses(o, c.Module)
 	mm, err := loadDM(c.Module)
 	if err != nil {
 		o.Failf("harness|schema-rejected", "%v", err)
